@@ -335,6 +335,50 @@ class LookAlikeSearchers(object):
             shutil.rmtree(d, ignore_errors=True)
 
 
+class NoSearchers(object):
+    name = 'the-empty-searcher-list'
+    describe = ('a compiler with NO searcher at all (and with a single empty stub list): A imports B imports the base modules; every '
+                'request x noDeps x rebuild x dryRun: without noDeps every module of the closure is generated and handed over, with '
+                'noDeps only the requested ones - nobody vouches for anything, and nothing but noDeps holds a module back')
+
+    def blocks(self, tier):
+        return [{'searchers': k} for k in ('none', 'empty-stub-list')]
+
+    def cases(self, block, tier):
+        for req in (['A'], ['B'], ['A', 'B'], ['B', 'A']):
+            for nd in (False, True):
+                for rb in (False, True):
+                    for dry in (False, True):
+                        yield {'searchers': block['searchers'], 'req': req, 'noDeps': nd, 'rebuild': rb, 'dryRun': dry}
+
+    def run_case(self, case):
+        from pysmi.searcher.stub import StubSearcher
+        texts = env.base_texts()
+        texts['A'] = 'A DEFINITIONS ::= BEGIN\nIMPORTS b FROM B;\na OBJECT IDENTIFIER ::= { b 1 }\nEND\n'
+        texts['B'] = 'B DEFINITIONS ::= BEGIN\nIMPORTS enterprises FROM SNMPv2-SMI;\nb OBJECT IDENTIFIER ::= { enterprises 9 }\nEND\n'
+        w = env.CaptureWriter()
+        parser = env.shared_parser('smiV2')
+        parser.reset()
+        comp = env.MibCompiler(parser, env.make_codegen('json'), w)
+        comp.addSources(env.DictReader(texts))
+        if case['searchers'] == 'empty-stub-list':
+            comp.addSearchers(StubSearcher())
+        res = comp.compile(*case['req'], noDeps=case['noDeps'], rebuild=case['rebuild'], dryRun=case['dryRun'])
+        closure = set(['A', 'B', 'SNMPv2-SMI']) if 'A' in case['req'] else set(['B', 'SNMPv2-SMI'])
+        # (the generators add SNMPv2-TC / SNMPv2-CONF to what every module imports)
+        closure |= set(k for k in res if k in env.BASE_NAMES)
+        vs = []
+        sig = 'C10|no-searchers|%s%s' % (case['searchers'], '|noDeps' if case['noDeps'] else '')
+        written = [n for n, d, dry in w.written]
+        for m in sorted(closure):
+            want = 'compiled' if (not case['noDeps'] or m in case['req']) else 'untouched'
+            if str(res.get(m)) != want:
+                vs.append(('%s|%s-where-%s' % (sig, res.get(m), want), 'module %s, case %r, statuses %r' % (m, case, dict((k, str(v)) for k, v in res.items()))))
+            if (want == 'compiled') != (written.count(m) == 1):
+                vs.append(('%s|hand-over-disagrees-with-%s' % (sig, want), 'module %s written %d times' % (m, written.count(m))))
+        return repr(sorted((k, str(v)) for k, v in res.items())), vs, 1
+
+
 class StubNames(object):
     name = 'stub-lists-and-name-fragments'
     describe = ('the real StubSearcher over the stub list of the pysnmp code generator and over short lists: asked for every listed '
@@ -615,5 +659,5 @@ def _borrowed_copy_ages():
     return BorrowedCopyAges()
 
 
-FAMILIES = [SearcherLists(), FileSearchers(), SeveralSearchers(), LookAlikeSearchers(), StubNames(), ReaderToSearcher(), NoDepsFileNames(), SearcherHistories(),
+FAMILIES = [SearcherLists(), FileSearchers(), SeveralSearchers(), LookAlikeSearchers(), NoSearchers(), StubNames(), ReaderToSearcher(), NoDepsFileNames(), SearcherHistories(),
             _borrowed_copy_ages()]
